@@ -129,6 +129,18 @@ def run(ctx):
         gap = drng.choice([1.0, 1.5, 5.0])
         script = ",".join(["S0.1", seg, "D0", "A%g" % tx.amp, "S%.2f" % gap] + tx.segments()[1:])
         cases.append((["dc-staircase"], tx, gap, script))
+    # estimates of one, two and three bytes: two bursts 1 s apart whose prefix is accepted by the framer (one bit error) but whose
+    # k-th character is not a SAME character, so that the voted estimate breaks off after k bytes (k = 1: a single "Z")
+    srng = rng.fork("short-estimates")
+    for j in range(6 if q else 36):
+        k = 1 + j % 3
+        pre = b"ZCZC"        # header prefix only: a damaged NNNN burst is legitimate evidence for an EndOfMessage (see prefix-then-invalid)
+        data = pre[:k] + bytes([pre[k] ^ 0x40]) + pre[k + 1:] + bytes(srng.choice(samegen.ALLOWED) for _ in range(srng.range(0, 12)))
+        b = hx(b"\xab" * 16 + data)
+        tx = rxlib.Tx(srng, rate=srng.choice(rxlib.STD_RATES), H=samegen.gen_header(srng, nloc=1), gap_ht=1.0, lead=0.0, impaired=(j % 2 == 1))
+        gap = 1.0 + srng.below(101) / 100.0
+        script = ",".join(["S0.1", "B" + b, "S1.00", "B" + b, "S%.2f" % gap] + tx.segments()[1:])
+        cases.append((["short-estimate-%d" % k], tx, gap, script))
     lines = [tx.line(script=script) for (_, tx, _, script) in cases]
     res = rxlib.run_rx(lines)
     ctx.coverage["known_finding_F9_witness_reproduces"] = rxlib.run_f9_witness(ctx, "C10")
@@ -182,6 +194,7 @@ def run(ctx):
     # the two float components whose state outlives a burst, bit for bit against the Flocq model the C10 theorems are about
     import fdlib
     ctx.coverage.update(fdlib.correspondence(ctx, rng.fork("float-components"), 64 if q else 1600, 64 if q else 1600, "c10"))
+    ctx.coverage.update(fdlib.tl_correspondence(ctx, rng.fork("timing-loop"), 48 if q else 1200, "c10"))
     ctx.coverage["known_finding_F12_witness_reproduces"] = f12_witness(ctx)
     ctx.coverage.update({
         "evaluations": len(cases), "distinct_nontrivial": nontriv,
@@ -194,7 +207,7 @@ def run(ctx):
 
 
 def replay(payload):
-    if payload.get("input", "").startswith(("dcbrun", "agcrun")):
+    if payload.get("input", "").startswith(("dcbrun", "agcrun", "tlrun")):
         import fdlib
         return fdlib.replay(payload["input"])
     r = rxlib.run_rx([payload["input"]])[0]
